@@ -43,6 +43,11 @@ WORKLOADS = {
     "MM2-2222": S.MM2(2, 2, 2, 2),
     "MV3-2222": S.MV3(2, 2, 2, 2),
     "FAN3-22222": S.FAN3(2, 2, 2, 2, 2),
+    # a tensor (A) that stays live across an Einsum (E1) that does not use it
+    "SKIP3": S.WL(einsums=(("E0", "A", ("m", "n"), (("Y", ("m",)), ("W0", ("n",)))),
+                           ("E1", "B", ("p", "q"), (("X", ("p", "r")), ("W1", ("r", "q")))),
+                           ("E2", "C", ("m",), (("A", ("m", "n")), ("W2", ("n",))))),
+                  bounds=(("m", 3), ("n", 2), ("p", 2), ("r", 2), ("q", 2))),
 }
 
 
@@ -146,7 +151,7 @@ def body(cfg):
 def run(ctx):
     afx.serial()
     _Q["quick"] = ctx.quick
-    wids = ["MV2-424", "MM2-2222", "MV3-2222"] if ctx.quick else list(WORKLOADS)
+    wids = ["MV2-424", "MM2-2222", "MV3-2222", "SKIP3"] if ctx.quick else list(WORKLOADS)
     metrics = ["E", "ELR"] if ctx.quick else ["E", "L", "EL", "ELR"]
 
     def tree(p):
